@@ -53,7 +53,8 @@ aside), an error for a missing query or a malformed payload -/
 def judgeActive (payload : Payload) (impl : String) : String :=
   let items := if impl = "-" then [] else impl.splitOn ";"
   let resp := items.filter (fun i => !(sstarts i "pre:"))
-  if resp.length ≠ 1 then s!"?viol:{resp.length}-responses-to-a-query-request"
+  if resp.any (· = "garbage") then "?viol:a-reply-that-is-not-a-protocol-response"
+  else if resp.length ≠ 1 then s!"?viol:{resp.length}-responses-to-a-query-request"
   else if payload ≠ .ok ∧ !(sstarts (resp.headD "") "error:") then "?viol:missing-query-or-malformed-payload-not-answered-with-an-error"
   else "?ok"
 
